@@ -18,7 +18,8 @@ REAL = ["esutil.integrate.QGauss/QGauss2/qgauss/gauleg (Python + _cgauleg C)", "
 STUB = []
 
 _lg_cache = {}
-BIG_N = [201, 256, 257, 300, 333, 400, 499, 512, 640, 777, 1000, 1001, 1250, 1500, 1999, 2000]
+BIG_N = [201, 255, 256, 257, 300, 333, 400, 499, 511, 512, 513, 640, 777, 1000, 1001, 1023, 1024, 1025, 1250, 1500, 1999,
+         2000]
 
 
 def gl_newton(n):
@@ -139,6 +140,8 @@ def draw_npts(r, big_ok=True):
     if k == "tiny":
         return r.randrange(1, 5)
     if k == "small":
+        if chance(r, 0.15):
+            return pick(r, [7, 8, 9, 15, 16, 17, 31, 32, 33, 63, 64, 65, 127, 128, 129])
         return r.randrange(2, 41)
     if k == "mid":
         return r.randrange(41, 201)
@@ -195,6 +198,8 @@ def plan(S, prop, mode, tier, avoid):
             c, h = draw_interval(r)
             op.update({"c": c, "h": h, "g": draw_g(r), "rev": chance(r, 0.15),
                        "rk": pick(r, ["list", "tuple", "array"])})
+            if k == "func" and chance(r, 0.12):
+                op["reenter"] = True
         elif k in ("data", "qgauss"):
             c, h = draw_interval(r)
             m = r.randrange(2, 40)
@@ -385,8 +390,18 @@ def execute(script, run, env):
                 continue
             rng_arg = {"list": [a, b], "tuple": (a, b), "array": np.array([a, b])}[op["rk"]]
             feats = {"kind": "func", "npts": n_eff if n_eff <= 2 else "n>2"}
+            f_call = f
+            if op.get("reenter"):
+                # an iterated integral written with ONE object: while the outer call evaluates its integrand, the
+                # integrand asks the same object for an inner integral (same point count: npts omitted)
+                run.fault("integrand_reenters_the_same_object")
+                feats["reenter"] = True
+
+                def f_call(x, _f=f, _qg=qg, _a=a, _b=b):
+                    inner = _qg.integrate([_a, 0.5 * (_a + _b)], lambda t: np.cos(t) + 0.0 * t)
+                    return _f(x) + 0.0 * inner
             try:
-                got = qg.integrate(rng_arg, f, npts=op["npts"])
+                got = qg.integrate(rng_arg, f_call, npts=op["npts"])
             except Exception as e:
                 if judge:
                     run.fail("quad.func.raises", feats, "integrate([%r,%r], f, npts=%r) raised %r" % (a, b, op["npts"], e))
